@@ -26,7 +26,7 @@ from .facts import Body, strip_generics
 VERIF = os.path.dirname(os.path.dirname(os.path.abspath(__file__)))
 MAX_BLOCKS = 150
 MAX_DEPTH = 3
-MAX_SHARED_SITES = 4       # a small helper shared by a few call sites (a de-duplicated block) is folded into each
+MAX_SHARED_SITES = 8       # a small helper shared by a few call sites (a de-duplicated block) is folded into each
 MAX_SHARED_BLOCKS = 60
 _VOCAB = None
 
@@ -83,8 +83,11 @@ def eligible(fa, h, caller):
 
 # ---------------------------------------------------------------- remapping
 
+_RET = [None]      # during inline_call: the caller local that stands for the helper's return place, or None
+
+
 def _pl(pl, off):
-    out = [pl[0] + off]
+    out = [_RET[0] if (pl[0] == 0 and _RET[0] is not None) else pl[0] + off]
     for e in pl[1:]:
         if isinstance(e, str) and e.startswith("[_") and e.endswith("]") and e[2:-1].isdigit():
             out.append("[_%d]" % (int(e[2:-1]) + off))
@@ -156,7 +159,68 @@ def _term(t, off, boff, landing):
     return t
 
 
-def inline_call(f_d, bb, h):
+def _split_top(s):
+    out, depth, cur = [], 0, ""
+    for ch in s:
+        if ch in "<([":
+            depth += 1
+        elif ch in ">)]":
+            depth -= 1
+        if ch == "," and depth == 0:
+            out.append(cur.strip())
+            cur = ""
+        else:
+            cur += ch
+    if cur.strip():
+        out.append(cur.strip())
+    return out
+
+
+def _strip_ref(t):
+    t = re.sub(r"'[a-z_]+ ", "", t.strip())
+    while t.startswith("&"):
+        t = t[1:].strip()
+        if t.startswith("mut "):
+            t = t[4:].strip()
+    return t
+
+
+def generic_bindings(fa, h, call):
+    """{type parameter of helper `h`: concrete type at this call site}, read off by matching the helper's declared input
+    types (`&T`) with the instantiated fn type of the call operand (`fn(&'a Vec<i64>)`); only bare parameters bind."""
+    f = fa.fns.get(h.path) or {}
+    c = (call.get("f") or {}).get("k") or {}
+    ty = c.get("ty", "")
+    m = re.search(r"fn\((.*)\)(?: -> .*)? \{", ty)
+    if not m or not f.get("inputs"):
+        return {}
+    conc = _split_top(m.group(1))
+    out = {}
+    for g, k in zip(f["inputs"], conc):
+        g2, k2 = _strip_ref(g), _strip_ref(k)
+        if re.fullmatch(r"[A-Z][A-Za-z0-9]*", g2) and g2 != k2:
+            out[g2] = k2
+    return out
+
+
+def _subst(obj, binds):
+    """apply type-parameter bindings to every type-carrying string of a block / locals structure (deep copy)"""
+    if not binds:
+        return obj
+    rx = re.compile(r"\b(%s)\b" % "|".join(re.escape(k) for k in binds))
+
+    def go(x, key=None):
+        if isinstance(x, dict):
+            return {k: go(v, k) for k, v in x.items()}
+        if isinstance(x, list):
+            return [go(v, key) for v in x]
+        if isinstance(x, str) and key in ("ty", "fnfull", "res", "adt"):
+            return rx.sub(lambda m_: binds[m_.group(1)], x)
+        return x
+    return go(obj)
+
+
+def inline_call(f_d, bb, h, binds=None):
     """Return a new body dict: call at block `bb` of body dict `f_d` replaced by the blocks of helper Body `h`."""
     d = dict(f_d)
     blocks = [dict(b) for b in f_d["blocks"]]
@@ -166,7 +230,13 @@ def inline_call(f_d, bb, h):
     call = blocks[bb]["term"]
     landing = boff + len(h.blocks)
     argc = h.d["argc"]
-    for i, l in enumerate(h.locals):
+    # a call whose destination is a whole local: the helper writes its result straight into it (so `_0 = Err(..)` of a
+    # helper called in tail position stays an `_0 = Err(..)` of the caller and is classified as an error exit)
+    direct = len(call["d"]) == 1
+    _RET[0] = call["d"][0] if direct else None
+    h_locals = _subst(h.locals, binds)
+    h_blocks = _subst(h.blocks, binds)
+    for i, l in enumerate(h_locals):
         l2 = dict(l)
         if i <= argc:
             l2.pop("n", None)       # parameters / return place become plain temporaries: origin() chases through them
@@ -178,7 +248,7 @@ def inline_call(f_d, bb, h):
             stmts.append({"l": [off + i + 1], "r": {"k": "use", "o": a}, "ln": call.get("ln", 0), "x": "inline:param"})
     blocks[bb]["s"] = stmts
     blocks[bb]["term"] = {"k": "goto", "t": boff, "ln": call.get("ln", 0), "x": "inline:%s" % h.npath}
-    for hb in h.blocks:
+    for hb in h_blocks:
         nb = {"s": [], "term": _term(hb["term"], off, boff, landing)}
         if hb.get("cleanup"):
             nb["cleanup"] = True
@@ -191,10 +261,11 @@ def inline_call(f_d, bb, h):
                 s2["setdiscr"] = _pl(s2["setdiscr"], off)
             nb["s"].append(s2)
         blocks.append(nb)
-    # landing block: copy the helper's return value into the call's destination
+    # landing block: copy the helper's return value into the call's destination (nothing to copy when written directly)
     lt = {"k": "goto", "t": call["t"], "ln": call.get("ln", 0)} if call.get("t") is not None else {"k": "unreachable", "ln": call.get("ln", 0)}
-    blocks.append({"s": [{"l": list(call["d"]), "r": {"k": "use", "o": {"mv": [off]}}, "ln": call.get("ln", 0), "x": "inline:return"}],
-                   "term": lt})
+    ls = [] if direct else [{"l": list(call["d"]), "r": {"k": "use", "o": {"mv": [off]}}, "ln": call.get("ln", 0), "x": "inline:return"}]
+    blocks.append({"s": ls, "term": lt})
+    _RET[0] = None
     d["blocks"] = blocks
     d["locals"] = locals_
     return d
@@ -218,7 +289,7 @@ def inlined(fa, body):
             n = cfg.callee(t)
             h = fa.body(n) if n else None
             if h is not None and eligible(fa, h, body) and len(cur.blocks) + len(h.blocks) < 1500:
-                nd = inline_call(cur.d, i, h)
+                nd = inline_call(cur.d, i, h, generic_bindings(fa, h, t))
                 cur = Body(nd, body.crate)
                 if h.path not in helpers:
                     helpers.append(h.path)
@@ -261,7 +332,7 @@ def force_inline(fa, body, names, depth=3):
             if n in names:
                 h = fa.body(n)
                 if h is not None and not any(b["term"]["k"] in ("tailcall", "yield") for b in h.blocks):
-                    cur = Body(inline_call(cur.d, i, h), body.crate)
+                    cur = Body(inline_call(cur.d, i, h, generic_bindings(fa, h, t)), body.crate)
                     done = False
                     break
         if done:
